@@ -128,7 +128,7 @@ def _check(prop, tier, seed, repo, vacuity=True, update_baseline=False):
     kres = None
     kh = cfg.get("kani", {})
     names = list(kh.get("quick", [])) + (list(kh.get("thorough", [])) if tier == "thorough" else [])
-    if names:
+    if names and not os.environ.get("VERIF_SKIP_KANI"):
         import kani_run
         try:
             kres = kani_run.run_harnesses(names, repo, tier)
